@@ -2,3 +2,4 @@ import DnsModel.Basic
 import DnsModel.Name
 import DnsModel.Labels
 import DnsModel.Msg
+import DnsModel.Compress
